@@ -7,6 +7,7 @@
 import DxModel.GraphCheck
 import Driver.Proto
 import Driver.Shuffle
+import Driver.Repartition
 open Dx Dx.Proto
 
 namespace Dx.Drv
@@ -29,6 +30,7 @@ def handleCore : List String → Option String
 def handlers : List (List String → Option String) :=
   [ handleCore
   , Dx.Drv.Shuffle.handle
+  , Dx.Drv.Repartition.handle
   ]
 
 def handle (line : String) : String :=
